@@ -697,3 +697,228 @@ func c11TwoVariables(vs []ssa.Value) bool {
 	}
 	return false
 }
+
+// ---------------------------------------------------------------------------
+// Node lookup by id (C11.4 / C11.5 / C11.6)
+//
+// Node, From and To start from "the node of allNodesMIMO that has the given id, or nil". In the pinned tree
+// that value is the result of the private method Network.nodeWithID. A refactoring may move the search into a
+// new helper (a package-level function taking the list as a parameter, ...), which the normaliser inlines at
+// the call sites: the value is then a phi - the result variable of the inlined search - that receives nil or
+// an element of recv.allNodesMIMO, the element only on an edge on which that element's id has been compared
+// equal with the id parameter. Both forms state the same fact; c11Lookup recognises either.
+
+type c11Lookup struct {
+	fn   *ssa.Function
+	tm   *Termer
+	nw   *ssa.Function // the pinned helper Network.nodeWithID; nil when the tree has none
+	memo map[*ssa.Phi]bool
+}
+
+func newC11Lookup(fn *ssa.Function, tm *Termer, nw *ssa.Function) *c11Lookup {
+	return &c11Lookup{fn: fn, tm: tm, nw: nw, memo: map[*ssa.Phi]bool{}}
+}
+
+func c11IsNilConst(v ssa.Value) bool {
+	c, ok := v.(*ssa.Const)
+	return ok && c.Value == nil
+}
+
+// c11IdSubject: t denotes the id of a node (`x.ID()`, `int64(x.Id)`, `x.Id`); returns the term of x.
+func c11IdSubject(t *Term) *Term {
+	for t != nil && t.Op == "conv" && len(t.Args) == 1 {
+		t = t.Args[0]
+	}
+	switch {
+	case t == nil:
+		return nil
+	case t.Op == "call" && (t.Name == "NNode.ID" || strings.HasSuffix(t.Name, ".NNode.ID")) && len(t.Args) == 1:
+		return t.Args[0]
+	case t.Op == "field" && t.Name == "Id" && len(t.Args) == 1:
+		if v, ok := t.Obj.(*types.Var); ok && v.Pkg() != nil && v.Pkg().Path() == PkgN {
+			return t.Args[0]
+		}
+	}
+	return nil
+}
+
+// matchedElem: e is an element of recv.allNodesMIMO, and on the edge pred->succ the id of that very element
+// is known to equal the id parameter (parameter 1 of Node/From/To).
+func (l *c11Lookup) matchedElem(e ssa.Value, conds []Guard) bool {
+	t := l.tm.Of(e)
+	if t.Op != "elem" || t.String() != "recv.allNodesMIMO[*]" {
+		return false
+	}
+	for _, g := range conds {
+		x, y, isEq := eqCond(l.tm, g)
+		if !isEq {
+			continue
+		}
+		if isParamIdx(x, 1) {
+			x, y = y, x
+		}
+		if !isParamIdx(y, 1) {
+			continue
+		}
+		if n := c11IdSubject(x); n != nil && (n.V == e || sameElem(n, t)) {
+			return true
+		}
+	}
+	return false
+}
+
+func c11EdgeConds(pred, succ *ssa.BasicBlock) []Guard {
+	for si, s := range pred.Succs {
+		if s == succ {
+			return c11CondsLeaving(pred, si)
+		}
+	}
+	return Guards(pred)
+}
+
+// inline: v is the result variable of a written-out search - a phi (web) all of whose inputs are nil or a
+// matched element of recv.allNodesMIMO, with at least one of each.
+func (l *c11Lookup) inline(v ssa.Value) bool {
+	root, ok := v.(*ssa.Phi)
+	if !ok {
+		return false
+	}
+	if res, done := l.memo[root]; done {
+		return res
+	}
+	nNil, nElem, okAll := 0, 0, true
+	seen := map[*ssa.Phi]bool{}
+	var walk func(ph *ssa.Phi)
+	walk = func(ph *ssa.Phi) {
+		if seen[ph] {
+			return
+		}
+		seen[ph] = true
+		for i, e := range ph.Edges {
+			if in, isPhi := e.(*ssa.Phi); isPhi {
+				walk(in)
+				continue
+			}
+			if c11IsNilConst(e) {
+				nNil++
+				continue
+			}
+			if l.matchedElem(e, c11EdgeConds(ph.Block().Preds[i], ph.Block())) {
+				nElem++
+			} else {
+				okAll = false
+			}
+		}
+	}
+	walk(root)
+	res := okAll && nNil > 0 && nElem > 0
+	l.memo[root] = res
+	return res
+}
+
+// is: v is the looked-up node - the result of the pinned helper, or of a written-out search.
+func (l *c11Lookup) is(v ssa.Value) bool {
+	if v == nil {
+		return false
+	}
+	if l.nw != nil && isCallTo(l.tm.Of(v), l.nw) {
+		return true
+	}
+	return l.inline(v)
+}
+
+// absent: the branch outcome g says that the looked-up node is nil (`node == nil` taken, `node != nil` not
+// taken, either operand order).
+func (l *c11Lookup) absent(g Guard) bool {
+	bo, ok := g.Cond.(*ssa.BinOp)
+	if !ok || !((bo.Op == token.EQL && g.True) || (bo.Op == token.NEQ && !g.True)) {
+		return false
+	}
+	isNil := func(v ssa.Value) bool { return c11IsNilConst(v) || l.tm.Of(v).Op == "nil" }
+	return (isNil(bo.Y) && l.is(bo.X)) || (isNil(bo.X) && l.is(bo.Y))
+}
+
+// inlineLookups: the written-out searches of fn.
+func (l *c11Lookup) inlineLookups() []*ssa.Phi {
+	var out []*ssa.Phi
+	for _, b := range l.fn.Blocks {
+		for _, in := range b.Instrs {
+			ph, ok := in.(*ssa.Phi)
+			if !ok {
+				break
+			}
+			if l.inline(ph) {
+				out = append(out, ph)
+			}
+		}
+	}
+	return out
+}
+
+// returnsLookup: every result of fn (a gonum interface value) is the nil interface or the looked-up node - the
+// lookup value itself, or directly a matched element of recv.allNodesMIMO - and some result is the node.
+func (l *c11Lookup) returnsLookup() (ok bool, why string) {
+	n := 0
+	for _, b := range l.fn.Blocks {
+		ret, isRet := b.Instrs[len(b.Instrs)-1].(*ssa.Return)
+		if !isRet || len(ret.Results) != 1 {
+			continue
+		}
+		var bad string
+		var visit func(v ssa.Value, conds []Guard, d int)
+		visit = func(v ssa.Value, conds []Guard, d int) {
+			switch x := v.(type) {
+			case *ssa.Const:
+				if x.Value == nil {
+					return
+				}
+			case *ssa.Phi:
+				if d < 4 {
+					for i, e := range x.Edges {
+						visit(e, c11EdgeConds(x.Block().Preds[i], x.Block()), d+1)
+					}
+					return
+				}
+			case *ssa.MakeInterface:
+				if l.is(x.X) || l.matchedElem(x.X, conds) || l.matchedElem(x.X, Guards(x.Block())) {
+					n++
+					return
+				}
+			}
+			bad = l.tm.Of(v).String()
+		}
+		visit(ret.Results[0], Guards(b), 0)
+		if bad != "" {
+			return false, "a result is " + bad
+		}
+	}
+	if n == 0 {
+		return false, "no result is the node found in allNodesMIMO"
+	}
+	return true, ""
+}
+
+// c11PhiMayBeNil: some input of the phi (web) is the nil constant or the result of a lookup that may return nil.
+func c11PhiMayBeNil(root *ssa.Phi) bool {
+	seen := map[*ssa.Phi]bool{}
+	var walk func(ph *ssa.Phi) bool
+	walk = func(ph *ssa.Phi) bool {
+		if seen[ph] {
+			return false
+		}
+		seen[ph] = true
+		for _, e := range ph.Edges {
+			if in, isPhi := e.(*ssa.Phi); isPhi {
+				if walk(in) {
+					return true
+				}
+				continue
+			}
+			if c11IsNilConst(e) || mayReturnNil(e) {
+				return true
+			}
+		}
+		return false
+	}
+	return walk(root)
+}
